@@ -341,6 +341,10 @@ def jacobi_sum_clenshaw(s, alpha, beta, x, alphas=None):
     alphas = _initialize_alphas(s, x, alphas)
     M = len(s) - 1
     alphas[M] = s[M]
+    if M == 0:
+        # a single term: the sum is s[0] * P0 = s[0], there is no alphas[M-1]
+        return alphas[0]
+
     a, b, c = recurrence_abc(M-1, alpha, beta)
     alphas[M-1] = s[M-1] + (a * x + b) * s[M]
     for n in range(M-2, -1, -1):
@@ -400,6 +404,11 @@ def jacobi_sum_clenshaw_der(s, alpha, beta, x, j=1, alphas=None):
     jacobi_sum_clenshaw(s, alpha, beta, x, alphas=alphas[0])
     # now loop over increasing j
     for jj in range(1, j+1):
+        if jj > M:
+            # a polynomial of degree M has no nonzero derivative of order > M;
+            # the remaining rows stay zero (and M-jj would index from the end)
+            break
+
         # more twisted notation - follow Forbes' paper, but our
         # idea of b and a are swapped
         a, *_ = recurrence_abc(M-jj, alpha, beta)
